@@ -49,6 +49,26 @@ var commonAssume = []string{
 
 var props = map[string]propInfo{}
 
+const baseStubs = "kernel file system, unix sockets, process table and signals, os/exec plumbing, Go mutexes/WaitGroup (scheduler-aware), step commands (scripted simstep)"
+
+// which components run real code and which a stub, per engine
+var engineReal = map[string]string{
+	"stepsim":  "internal/dag (loader, builder, parser), internal/dag/scheduler, internal/dag/executor/command.go, internal/agent, internal/sock, internal/client, internal/persistence/{jsondb,filecache,local,model}, internal/logger, internal/util; third-party yaml/mapstructure/slog unmodified",
+	"histsim":  "internal/persistence/{jsondb,filecache,model}, internal/util; the recorder and reader processes are harness code calling the HistoryStore interface",
+	"agentsim": "cmd/{start,retry,restart,stop}.go closures (real cobra commands), internal/config (viper, steered by environment), internal/dag (loader, builder, parser), internal/dag/scheduler, internal/dag/executor/command.go, internal/agent, internal/sock (server and client, HTTP framing), internal/client, internal/scheduler/job.go (start guard), internal/persistence/{jsondb,filecache,local,model}, internal/logger, internal/util",
+	"storesim": "internal/frontend/dag/handler.go (create, delete, post-action save/rename through the generated operation handler types), internal/client, internal/persistence/local (DAG store, flag store), internal/persistence/{jsondb,filecache,model}, internal/dag loader/builder/parser (validation on save, metadata on list), internal/util",
+	"apisim":   "internal/frontend/dag/handler.go (every post-action), internal/client (StartAsync/Stop/Retry/UpdateStatus/GetStatus), cmd/{start,retry,stop}.go closures as spawned simulated processes, internal/agent, internal/sock, internal/dag/scheduler, internal/persistence/{jsondb,filecache,local,model}, internal/dag, internal/util",
+	"cronsim":  "internal/scheduler (daemon loop, entry reader, job guards, filenotify poller), internal/client, cmd/{start,restart,stop}.go closures as spawned simulated processes, internal/agent, internal/sock, internal/dag (loader incl. schedule parsing, robfig/cron), internal/persistence/{jsondb,filecache,local,model}, internal/util",
+}
+var engineStubs = map[string]string{
+	"stepsim":  baseStubs,
+	"histsim":  "kernel file system and clock; Go mutexes (scheduler-aware)",
+	"agentsim": baseStubs,
+	"storesim": "kernel file system and clock; the go-swagger HTTP server, request binding/validation and auth middleware (the configured operation handlers are called directly)",
+	"apisim":   baseStubs + "; the go-swagger HTTP server, request binding/validation and auth middleware (the configured operation handlers are called directly)",
+	"cronsim":  baseStubs + "; inotify (simfsnotify)",
+}
+
 func init() {
 	stepRule := "one run = one generated DAG (1-8 steps, thorough up to 12; random acyclic depends, continueOn, retryPolicy, preconditions, maxActiveRuns, delay, handlers; per-attempt outcome scripts) executed by the real Agent/Scheduler in a simulated process with simulated step children under one seeded schedule (sticky/random/PCT, lock yields, stalls, op latencies). distinct = distinct schedule signature (hash of the sequence of (process role, op kind, resource class) over all scheduler steps); non-trivial = %s"
 	props["C01"] = propInfo{Engine: "stepsim", Level: "exploration", Rule: fmt.Sprintf(stepRule, "at least two step commands were executed"), QuickS: 20, ThoroughS: 600}
@@ -63,6 +83,7 @@ func init() {
 	props["C16"] = propInfo{Engine: "agentsim", Level: "exploration", Rule: fmt.Sprintf("one run = a generated DAG executed through the real CLI closures (cmd start/retry/stop) as simulated processes over the simulated disk, sockets and process table, with scripted step children; %s. distinct = distinct schedule signature; non-trivial = %s", "two (thorough: up to three) starts of the same file, the second released at a seeded scheduler step of the first's life or at the same moment; execution spans of the starts must not overlap, a refused start exits non-zero without executing or recording anything, the active run's endpoint keeps answering with its own request id", "the lifetimes of two start processes overlapped"), MustProbes: []string{"starts_overlapped", "start_refused", "survivor_probed", "probe_bind_window_hit"}, QuickS: 20, ThoroughS: 600}
 	props["C10"] = propInfo{Engine: "agentsim", Level: "exploration", Rule: fmt.Sprintf("one run = a generated DAG executed through the real CLI closures (cmd start/retry/stop) as simulated processes over the simulated disk, sockets and process table, with scripted step children; %s. distinct = distinct schedule signature; non-trivial = %s", "a first run ended naturally, by `stop` at a seeded step, or by a kill at a seeded system call (leaving running / not-started nodes recorded), optionally the definition is edited, then `retry --req=<id>` runs as a new process under fresh outcome scripts; kept steps must not execute and must be copied unchanged, unfinished steps and everything downstream re-run in dependency order, the retry terminates and is a new record", "a retry process ran"), MustProbes: []string{"first_run_killed", "recorded_running_node", "recorded_not_started_node", "step_in_retry_set"}, QuickS: 20, ThoroughS: 600}
 	props["C15"] = propInfo{Engine: "stepsim", Level: "exploration", Rule: fmt.Sprintf(stepRule, "at least two step commands overlapped in time"), MustProbes: []string{"limit_reached", "unlimited_overlap"}, QuickS: 20, ThoroughS: 600}
+	props["C18"] = propInfo{Engine: "storesim", Level: "fault_enumeration", Rule: "sequential batch: one run = a generated sequence of 4-16 (thorough 4-40) operations create / save (valid, 256 KiB, with schedule, bad YAML, unknown key, step without command or name, bad cron, steps not a list, empty) / rename / delete / list / recorded run / status update / sleep over 2-4 prefix-related names (with spaces, dashes, underscores), issued through the real API operation handlers (frontend/dag) -> client -> local DAG store + jsondb on the simulated disk, alternately through a long-lived cached server and a fresh server process; after every operation the bytes of every definition file and the history of every DAG (request ids, newest first, last status of each) are compared with a reference model. crash batch: a short prior sequence, then one save by a server process; pass 1 counts its simulated system calls, then the scenario is re-run once per crash point (kill before / after the k-th call, or inside a write with a torn prefix; quick: 6 seeded points, thorough: all) and the file must hold entirely the old or entirely the new text and every other DAG and history must be untouched. evaluations = simulated runs; distinct = distinct schedule signature; non-trivial = a DAG existed (sequential) or a crash landed (crash batch)", MustProbes: []string{"crash_landed", "rename_onto_existing", "rename_with_history", "delete_with_history", "create_on_existing", "save_invalid_text"}, QuickS: 20, ThoroughS: 600}
 }
 
 func die(code int, format string, a ...any) {
@@ -605,8 +626,8 @@ func check(prop, tier string) {
 			"violation_signatures": merged.ViolCounts,
 			"tree_hash":            key,
 			"infrastructure":       infra,
-			"real_code":            "internal/dag (loader, builder, parser), internal/dag/scheduler, internal/dag/executor/command.go, internal/agent, internal/sock, internal/client, internal/persistence/{jsondb,filecache,local,model}, internal/logger, internal/util; third-party yaml/mapstructure/slog unmodified",
-			"stubs":               "kernel file system, unix sockets, process table and signals, os/exec plumbing, Go mutexes/WaitGroup (scheduler-aware), step commands (scripted simstep)",
+			"real_code":            engineReal[pi.Engine],
+			"stubs":                engineStubs[pi.Engine],
 		},
 	}
 	_ = os.MkdirAll(filepath.Join(verifDir, "evidence"), 0o755)
